@@ -348,6 +348,17 @@ class Ctx:
             pth, pr = running.pop(0)
             out, _ = pr.communicate()
             outs[pth] = (pr.returncode, strip_noise(out))
+        # a cases file can fail to compile transiently when another process is rebuilding a .vo it
+        # imports (inconsistent-assumptions / bad-magic errors): retry such files once, sequentially
+        for pth in files:
+            rc, out = outs[pth]
+            if rc != 0 and rc != 124 and re.search(
+                    r'inconsistent assumptions|bad version|Cannot find a physical path|corrupted|'
+                    r'End_of_file|Compiled library .* makes inconsistent', out):
+                time.sleep(20)
+                pr = start(pth)
+                o2, _ = pr.communicate()
+                outs[pth] = (pr.returncode, strip_noise(o2))
         for pth in files:
             rc, out = outs[pth]
             if rc != 0:
